@@ -175,11 +175,34 @@ theorem solver_sinr_first_principles (G : (j : Fin K) → Mat ℂ n (T j))
       (add_nonneg (intfPow_nonneg _ _ _ _ _)
         (add_nonneg (extPow_nonneg He zero_le_one _) (noisePow_nonneg hσ _))) hden
 
+/-- the excluded case on the solver side, recorded: when interference, external
+    interference and noise power add up to exactly zero the solver's entry has no value —
+    the outcome tagged `.error .ZeroDivisionError`, which in `iabase.py` is a NON-FINITE
+    number (`np.divide`: `inf` for `x/0`, `nan` for `0/0`), not an exception; and
+    `calc_SINR` of the solver still delivers every other entry (`eachStream` is the plain
+    entrywise map, nothing is short-circuited). -/
+theorem solver_zero_denominator_nonfinite (G : (j : Fin K) → Mat ℂ n (T j))
+    (V : (j : Fin K) → Mat ℂ (T j) (S j)) (k : Fin K) (WHk : Mat ℂ (S k) n) (σ2 : ℝ) (He : Mat ℂ n e)
+    (l : Fin (S k)) (f : (k : Fin K) → Fin (S k) → Except PyErr ℝ) :
+    (intfPow G V (filtH WHk l) k l + noisePow σ2 (filtH WHk l) = 0 →
+      (solSinr G V k WHk (solRek (e := 0) n σ2 none) l : Except PyErr ℝ) = .error .ZeroDivisionError) ∧
+    (intfPow G V (filtH WHk l) k l + (extPow He 1 (filtH WHk l) + noisePow σ2 (filtH WHk l)) = 0 →
+      (solSinr G V k WHk (solRek n σ2 (some He)) l : Except PyErr ℝ) = .error .ZeroDivisionError) ∧
+    (eachStream S f)[k.val]? = some ((List.finRange (S k)).map (f k)) := by
+  refine ⟨fun h => ?_, fun h => ?_, ?_⟩
+  · rw [solSinr_eq G V k WHk _ l _ (qf_solRek_none (isFilt_solver WHk l) σ2), if_pos h]
+  · rw [solSinr_eq G V k WHk _ l _ (qf_solRek_some (isFilt_solver WHk l) σ2 He), if_pos h]
+  · have hk : (List.finRange K)[k.val]'(by simp) = k := by simp
+    simp only [eachStream, List.getElem?_map]
+    rw [List.getElem?_eq_getElem (by simp), Option.map_some, hk]
+
 /-- **the two implementations agree**: for every channel, precoders (unequal powers are
     part of `V`), path loss (part of `G`), noise variance incl. `None`, external
     interference and EVERY filter matrix, `IASolverBaseClass.calc_SINR` returns exactly
     what the channel object returns for `F = full_F`, `U = full_W` (`= full_W_Hᴴ`) — value
-    or `ZeroDivisionError` alike; with external sources at the default power `pe = 1`.
+    or "zero denominator" alike (there the channel object raises `ZeroDivisionError`, the
+    solver reports a non-finite entry: the same model outcome); external sources at the
+    default power `pe = 1`.
     (`solNoiseVar noise` is the solver's `noise_var` property: `None` reads as `0.0`.) -/
 theorem two_paths_agree (G : (j : Fin K) → Mat ℂ n (T j)) (V : (j : Fin K) → Mat ℂ (T j) (S j))
     (k : Fin K) (WHk : Mat ℂ (S k) n) (noise : Option ℝ) (He : Mat ℂ n e) (l : Fin (S k)) :
@@ -294,9 +317,10 @@ theorem shannon_sum_def (xs : List ℝ) : shannonSum xs = (xs.map (fun x => Real
   rw [shannonSum, sumL_eq_sum]
   rfl
 
-/-- `calc_SINR` raises as soon as one stream raises: if stream `l` of user `k` fails and
-    every earlier stream of every earlier-or-equal user has a value, the whole call (and
-    with it `calc_sum_capacity`) fails with that error. -/
+/-- one entry without a value spoils the whole: if stream `l` of user `k` has no value and
+    every earlier stream of every earlier-or-equal user has one, the aggregate outcome is that
+    tag — the channel object's `calc_SINR` raises there; the solver's result holds a
+    non-finite entry and its `calc_sum_capacity` is non-finite. -/
 theorem calc_SINR_raises (S : Fin K → Nat) (f : (k : Fin K) → Fin (S k) → Except PyErr ℝ)
     (k : Fin K) (l : Fin (S k)) (err : PyErr) (hfail : f k l = .error err)
     (hbefore_l : ∀ l' : Fin (S k), l'.val < l.val → ∃ y, f k l' = .ok y)
@@ -328,6 +352,39 @@ theorem calc_SINR_raises (S : Fin K → Nat) (f : (k : Fin K) → Fin (S k) → 
     choose y hy using hbefore_k b hb'
     exact ⟨_, mapM_ok _ _ y (fun l' _ => hy l')⟩
   exact ⟨hall, by rw [hall]; rfl⟩
+
+/-! ### long-lived objects: reports depend on the current inputs only -/
+
+/-- **no memory**: in the model an object that went through ANY history of setter calls
+    (new realisation, new layout, path loss set / changed / removed, noise variance,
+    post filters, precoders, powers, filters — `ι` is whatever bundles the inputs, layouts
+    included) reports exactly what a fresh object given the current inputs reports;
+    histories compose; two objects with the same current inputs report the same, whatever
+    their pasts.  This is the statement the session correspondence and the session oracle
+    of `harness/props/c11.py` hold the (cache-carrying) implementation to after every step. -/
+theorem reports_depend_on_current_inputs_only {ι β : Type} (report : ι → β) (i0 i0' : ι)
+    (h1 h2 : List (ι → ι)) :
+    reportAfter report i0 h1 = reportAfter report (afterHistory i0 h1) [] ∧
+    afterHistory i0 (h1 ++ h2) = afterHistory (afterHistory i0 h1) h2 ∧
+    (afterHistory i0 h1 = afterHistory i0' h2 → reportAfter report i0 h1 = reportAfter report i0' h2) := by
+  refine ⟨rfl, ?_, fun h => ?_⟩
+  · simp only [afterHistory, List.foldl_append]
+  · simp only [reportAfter, h]
+
+/-- … and therefore **first principles on the CURRENT inputs after any history**: whatever
+    sequence of setters a receiver's inputs went through, `calc_SINR` is signal over
+    interference-plus-noise of the channel, precoders, filter and noise variance it holds NOW. -/
+theorem sinr_after_history_first_principles (k : Fin K) (l : Fin (S k)) (i0 : RxInputs K n T S k)
+    (hist : List (RxInputs K n T S k → RxInputs K n T S k))
+    (hσ : ∀ v, (afterHistory i0 hist).noise = some v → 0 ≤ v)
+    (hden : intfPow (afterHistory i0 hist).G (afterHistory i0 hist).V (filt (afterHistory i0 hist).Uk l) k l +
+      noisePow (noiseVar (afterHistory i0 hist).noise) (filt (afterHistory i0 hist).Uk l) ≠ 0) :
+    reportAfter (fun i : RxInputs K n T S k => (chSinr i.G i.V k i.Uk (baseRek n i.noise) l : Except PyErr ℝ))
+        i0 hist =
+      .ok (sigPow (afterHistory i0 hist).G (afterHistory i0 hist).V (filt (afterHistory i0 hist).Uk l) k l /
+        (intfPow (afterHistory i0 hist).G (afterHistory i0 hist).V (filt (afterHistory i0 hist).Uk l) k l +
+          noisePow (noiseVar (afterHistory i0 hist).noise) (filt (afterHistory i0 hist).Uk l))) :=
+  sinr_first_principles _ _ k _ _ l hσ hden
 
 /-! ### the hypotheses are satisfiable (non-vacuity) -/
 
